@@ -165,7 +165,7 @@ def run(ctx):
                 'get_next_imf (envelopes and rules replaced by the script) vs the model: outcome kind, index of the returned iterate, flag, '
                 'iteration count - exact; (2) toy mode: random integer signals (6 families, length 3..40) x 6 toy envelope rules x random '
                 'thresholds/steps/limits, real get_next_imf vs Toys.run_toy_gni bit for bit; (3) sd_stop / rilling_stop on integer vectors vs the '
-                'exact models; (4) real signals (8 families; three in ten of the float64 ones multiplied by 1e-12, 1e-9 or 1e5) x {sd,rilling,fixed} x step {1,1/2,1/4} x {splrep,pchip,mono_pchip} x pad 1..4 x '
+                'exact models; (4) real signals (8 families + intermittent bursts on a weak carrier under the Rilling rule; three in ten of the float64 ones multiplied by 1e-12, 1e-9 or 1e5) x {sd,rilling,fixed} x step {1,1/2,1/4} x {splrep,pchip,mono_pchip} x pad 1..4 x '
                 'limits 1..1000: specification oracle + trace conformance of the model.  non-trivial = at least one sifting iteration was '
                 'completed (envelopes existed at iterate 0)' % (4 if ctx.quick() else 5))
     # the translation tie: the control skeletons of get_next_imf / sift / mask_sift are regenerated from the source and the
@@ -238,13 +238,34 @@ def run(ctx):
                    int(bool(sift.rilling_stop(A, B, sd1=r[0][0] / r[0][1], sd2=r[1][0] / r[1][1], tol=r[2][0] / r[2][1])[0]))]
             ctx.count(('stop', tuple(a), tuple(b), sn, sd, tuple(r)), True, 'stop-formulas')
             ctx.exact_cmp += 1
+            if documented_stops(a, b, [sn, sd], r) != exp:
+                ctx.problem('correspondence-break', 'documented_stops', 'the harness reading of the documented criteria and the Coq model differ',
+                            input=dict(kind='stop', a=a, b=b, sd=[sn, sd], rilling=r), observed=documented_stops(a, b, [sn, sd], r), expected=exp,
+                            theorem='harness/props/c04.py:documented_stops vs Toys.sd_stop / rilling_stop')
+                break
             if got != exp and len(bad) < 9:
                 bad.append(('sd_stop/rilling_stop', dict(kind='stop', a=a, b=b, sd=[sn, sd], rilling=r), got, exp))
     # ---- (4) real numerics: oracle + conformance
     nsig = 48 if ctx.quick() else 1600
     conf_cases, conf_meta = [], []
-    for fam, x in siftcore.real_signals(ctx.seed + 4, nsig):
+    # intermittent signals (a weak carrier with a few short strong bursts): the cubic-spline envelopes overshoot and CROSS there, which is
+    # where the sign conventions of the Rilling amplitude matter; always run with the Rilling rule
+    brs = np.random.RandomState(ctx.seed * 29 + 3)
+    bursts = []
+    for _ in range(10 if ctx.quick() else 300):
+        N = int(brs.randint(80, 200))
+        t = np.arange(N)
+        xb = 0.05 * np.sin(2 * np.pi * t / brs.uniform(6, 12))
+        for _k in range(int(brs.randint(1, 4))):
+            c, w = brs.randint(10, N - 10), brs.uniform(1.5, 4)
+            xb = xb + brs.uniform(1, 3) * np.exp(-0.5 * ((t - c) / w) ** 2) * np.sin(2 * np.pi * (t - c) / brs.uniform(5, 9))
+        bursts.append(('burst', xb))
+    for fam, x in list(siftcore.real_signals(ctx.seed + 4, nsig)) + bursts:
         imf_opts, envelope_opts, extrema_opts = siftcore.real_opts(ctx.rng)
+        if fam == 'burst':
+            imf_opts = dict(stop_method='rilling', env_step_size=ctx.rng.choice([1, 0.7]), max_iters=ctx.rng.choice([1000, 25]),
+                            rilling_thresh=ctx.rng.choice([(0.05, 0.5, 0.05), (0.1, 1.0, 0.1)]))
+            envelope_opts = dict(interp_method='splrep')
         dt = ctx.rng.choice(siftcore.DTYPES)
         amp = 1.0
         if dt is None and ctx.rng.random() < 0.3:
@@ -298,8 +319,38 @@ def run(ctx):
                         expected=exp, theorem='SiftCore.gni_loop / Toys vs emd.sift.get_next_imf (%s)' % site)
 
 
+def documented_stops(a, b, sd, rilling):
+    """the two documented criteria on integer vectors, in exact rational arithmetic with numpy's conventions for x/0 and 0/0
+    (inf compares greater than every threshold, nan compares false).  sd: sum((a-b)^2)/sum(a^2) < sd.  rilling (a = upper, b = lower
+    envelope): E = |(a+b)/2| / (|a-b|/2); stop unless mean(E > sd1) > tol or any(E > sd2)"""
+    from fractions import Fraction as F
+    num, den = sum((x - y) ** 2 for x, y in zip(a, b)), sum(x * x for x in a)
+    sd_stop = den != 0 and F(num, den) < F(*sd)
+    sd1, sd2, tol = (F(*q) for q in rilling)
+    over1 = over2 = 0
+    for x, y in zip(a, b):
+        m, w = abs(F(x + y, 2)), abs(F(x - y, 2))
+        if w == 0:
+            big = m != 0          # inf > thr; nan > thr is False
+            over1 += big
+            over2 += big
+        else:
+            over1 += m / w > sd1
+            over2 += m / w > sd2
+    ril_stop = not (F(over1, len(a)) > tol or over2 > 0)
+    return [int(sd_stop), int(ril_stop)]
+
+
 def explain(inp, got, exp):
     """Does a disagreement on a scripted/toy case violate the property text itself?  (None = no)"""
+    if inp.get('kind') == 'stop':
+        doc = documented_stops(inp['a'], inp['b'], inp['sd'], inp['rilling'])
+        if got != doc:
+            which = 'sd_stop' if got[0] != doc[0] else 'rilling_stop'
+            return ('%s on the vectors %s / %s decides %s where its documented criterion (sd %s, rilling thresholds %s) gives %s'
+                    % (which, inp['a'], inp['b'], 'stop' if got[got[0] == doc[0]] else 'continue', inp['sd'], inp['rilling'],
+                       'stop' if doc[got[0] == doc[0]] else 'continue'))
+        return None
     if inp.get('kind') == 'scripted':
         he, fr, mi, method = inp['has_env'], inp['fired'], inp['max_iters'], inp['method']
         # property: result = first firing iterate (mean removed) / n-th for fixed / first iterate without envelopes /
@@ -351,6 +402,16 @@ def replay(rec):
             if not np.array_equal(a[0], b[0]) or bool(a[1]) != bool(b[1]):
                 return True
         return False
+    if i.get('kind') == 'stop':
+        from emd import sift
+        A, B = np.array(i['a'], dtype=float), np.array(i['b'], dtype=float)
+        r = i['rilling']
+        with np.errstate(all='ignore'), warnings.catch_warnings():
+            warnings.simplefilter('ignore')
+            got = [int(bool(sift.sd_stop(A, B, sd=i['sd'][0] / i['sd'][1])[0])),
+                   int(bool(sift.rilling_stop(A, B, sd1=r[0][0] / r[0][1], sd2=r[1][0] / r[1][1], tol=r[2][0] / r[2][1])[0]))]
+        print('observed', got, 'documented', documented_stops(i['a'], i['b'], i['sd'], r))
+        return got != documented_stops(i['a'], i['b'], i['sd'], r)
     if i.get('kind') == 'scripted':
         got = siftcore.impl_scripted(toys.METHODS.index(i['method']), i['max_iters'], i['has_env'], i['fired'])
         print('observed', got, 'expected', rec.get('expected'))
